@@ -191,7 +191,10 @@ def fanout_tables(prog, chk):
         hn, rn = fn.params[0]["n"], fn.params[1]["n"]
         inputs = {hn: Ptr("has"), rn: Ptr("R"), "has->ctx": Ptr("ctx"), "has->respQueue": Ptr("RQ"), "HAREQ->expectedRespCount": count,
                   "HAREQ->asyncHandle": Ptr("H"), "H->state": state, "H->err": 0x405 if state == ERRS else 0, "H->errMsg": 0, "R->err": 0x406, "R->errMsg": 0,
-                  "R->respCtx": Ptr("RESPCTX"), "H->respCtx": 0, "HAREQ->hasReq": 1}
+                  "R->respCtx": Ptr("RESPCTX"), "H->respCtx": 0, "HAREQ->hasReq": 1,
+                  # the endpoint's own handle: the dispatcher (responseHandler) calls the error handler only for a handle in state ERROR and the
+                  # response handler only for RESPONSE_RECEIVED; its state says nothing about the request it is a copy of
+                  "R->state": ERRS if fn.name == "handleErrorResponse" else RECV}
 
         def getctx(I, p, node, args):
             I.write(p, lvalue_key(strip(node["a"][1])["e"], I.fn) if strip(node["a"][1]).get("k") == "un" else "haRequest", Ptr("HAREQ"))
